@@ -270,6 +270,24 @@ fn initialize_error_on_this(
     obj_ref.set_property(stack_key, JsValue::String(stack));
 }
 
+/// `new Error(message, { cause })`: an own, non-enumerable `cause` when the options have one
+fn install_error_cause(interp: &mut Interpreter, this_obj: &Gc<JsObject>, args: &[JsValue]) {
+    let Some(JsValue::Object(options)) = args.get(1) else {
+        return;
+    };
+    let cause_key = PropertyKey::String(interp.intern("cause"));
+    let cause = match options.borrow().get_property_descriptor(&cause_key) {
+        Some((prop, _)) if !prop.is_accessor() => Some(prop.value.clone()),
+        _ => None,
+    };
+    if let Some(cause) = cause {
+        this_obj.borrow_mut().define_property(
+            cause_key,
+            crate::value::Property::with_attributes(cause, true, false, true),
+        );
+    }
+}
+
 /// Error constructor - sets name and message on `this`
 pub fn error_constructor(
     interp: &mut Interpreter,
@@ -281,6 +299,7 @@ pub fn error_constructor(
     // When called via `new Error()`, this is the newly created object
     if let JsValue::Object(ref this_obj) = this {
         initialize_error_on_this(interp, this_obj, "Error", message);
+        install_error_cause(interp, this_obj, args);
     }
 
     // Return undefined - new handler will return the created object
@@ -296,6 +315,7 @@ pub fn type_error_constructor(
     let message = args.first().cloned().unwrap_or(JsValue::Undefined);
     if let JsValue::Object(ref this_obj) = this {
         initialize_error_on_this(interp, this_obj, "TypeError", message);
+        install_error_cause(interp, this_obj, args);
     }
     Ok(Guarded::unguarded(JsValue::Undefined))
 }
@@ -309,6 +329,7 @@ pub fn range_error_constructor(
     let message = args.first().cloned().unwrap_or(JsValue::Undefined);
     if let JsValue::Object(ref this_obj) = this {
         initialize_error_on_this(interp, this_obj, "RangeError", message);
+        install_error_cause(interp, this_obj, args);
     }
     Ok(Guarded::unguarded(JsValue::Undefined))
 }
@@ -322,6 +343,7 @@ pub fn reference_error_constructor(
     let message = args.first().cloned().unwrap_or(JsValue::Undefined);
     if let JsValue::Object(ref this_obj) = this {
         initialize_error_on_this(interp, this_obj, "ReferenceError", message);
+        install_error_cause(interp, this_obj, args);
     }
     Ok(Guarded::unguarded(JsValue::Undefined))
 }
@@ -335,6 +357,7 @@ pub fn syntax_error_constructor(
     let message = args.first().cloned().unwrap_or(JsValue::Undefined);
     if let JsValue::Object(ref this_obj) = this {
         initialize_error_on_this(interp, this_obj, "SyntaxError", message);
+        install_error_cause(interp, this_obj, args);
     }
     Ok(Guarded::unguarded(JsValue::Undefined))
 }
@@ -348,6 +371,7 @@ pub fn uri_error_constructor(
     let message = args.first().cloned().unwrap_or(JsValue::Undefined);
     if let JsValue::Object(ref this_obj) = this {
         initialize_error_on_this(interp, this_obj, "URIError", message);
+        install_error_cause(interp, this_obj, args);
     }
     Ok(Guarded::unguarded(JsValue::Undefined))
 }
@@ -361,6 +385,7 @@ pub fn eval_error_constructor(
     let message = args.first().cloned().unwrap_or(JsValue::Undefined);
     if let JsValue::Object(ref this_obj) = this {
         initialize_error_on_this(interp, this_obj, "EvalError", message);
+        install_error_cause(interp, this_obj, args);
     }
     Ok(Guarded::unguarded(JsValue::Undefined))
 }
